@@ -109,11 +109,63 @@ pub fn check(rep: &mut Rep, w: &World, sc: i128, ss: TimeScale, ec: i128, es: Ti
         } else {
             n2
         };
-        (n, first_bad, after, n2, n3)
+        // the iterator's own adaptors (`for` loops over `.skip()` / `.step_by()`, `.nth()`, `.count()`, `.last()`) are
+        // iteration too: they must see exactly the items the plain next() loop sees
+        let mut adapt: Option<String> = None;
+        if want_n < 3000 && n as i128 == want_n && first_bad.is_none() {
+            let mk_ts = || if incl { TimeSeries::inclusive(start, end, stp) } else { TimeSeries::exclusive(start, end, stp) };
+            let cnt = mk_ts().count();
+            let last = mk_ts().last().map(|e| count_d(e.duration));
+            let want_last = if n == 0 { None } else { Some(sc + (n as i128 - 1) * step) };
+            if cnt != n {
+                adapt = Some(format!("count() = {} but next() yields {}", cnt, n));
+            } else if last != want_last {
+                adapt = Some(format!("last() = {:?} want {:?}", last, want_last));
+            }
+            for k in [0usize, 1, 2, n / 2, n.saturating_sub(1), n, n + 1] {
+                if adapt.is_some() {
+                    break;
+                }
+                let sk: Vec<i128> = mk_ts().skip(k).map(|e| count_d(e.duration)).collect();
+                let want_sk: Vec<i128> = (k..n).map(|j| sc + j as i128 * step).collect();
+                if sk != want_sk {
+                    adapt = Some(format!("skip({k}) yields {} items (first {:?}), want {} (first {:?})", sk.len(), sk.first(), want_sk.len(), want_sk.first()));
+                    break;
+                }
+                let nth = mk_ts().nth(k).map(|e| count_d(e.duration));
+                let want_nth = if k < n { Some(sc + k as i128 * step) } else { None };
+                if nth != want_nth {
+                    adapt = Some(format!("nth({k}) = {:?} want {:?}", nth, want_nth));
+                    break;
+                }
+                if k >= 1 {
+                    let sb: Vec<i128> = mk_ts().step_by(k).map(|e| count_d(e.duration)).collect();
+                    let want_sb: Vec<i128> = (0..n).step_by(k).map(|j| sc + j as i128 * step).collect();
+                    if sb != want_sb {
+                        adapt = Some(format!("step_by({k}) yields {} items, want {}", sb.len(), want_sb.len()));
+                        break;
+                    }
+                }
+                // nth in the middle of an iteration, then on to the end
+                let mut it = mk_ts();
+                let _ = it.next();
+                let _ = it.nth(k);
+                let rest = it.count();
+                let want_rest = n.saturating_sub(k + 2);
+                if rest != want_rest {
+                    adapt = Some(format!("next(); nth({k}); then count() = {} want {}", rest, want_rest));
+                }
+            }
+        }
+        (n, first_bad, after, n2, n3, adapt)
     });
     match r {
         Err(p) => rep.fail(&format!("series/panic/{}", p.class()), None, || format!("{} panicked: {} at {}", det(), p.msg, p.loc)),
-        Ok((n, first_bad, after, n2, n3)) => {
+        Ok((n, first_bad, after, n2, n3, adapt)) => {
+            if let Some(a) = adapt {
+                rep.class("series/adaptor-mismatch");
+                rep.fail("series/adaptor", None, || format!("{}: {}", det(), a));
+            }
             if let Some((k, parts, tsc)) = first_bad {
                 rep.fail("series/item-value", None, || format!("{}: item {} = ({}, {:?}), want count {}", det(), k, fmt_parts(parts), tsc, sc + k as i128 * step));
             }
